@@ -507,6 +507,7 @@ def g_case(h, out, flags, cands, all_replicas):
     obs0 = out["obs"]
     nblocks = len(obs0)
     blocks = []
+    genesis_seed = []
     indomain = True
     for bi in range(nblocks):
         b = h["blocks"][bi]
@@ -522,7 +523,9 @@ def g_case(h, out, flags, cands, all_replicas):
                     continue
                 seed.append("(K_svc %d, VSvc %s)" % (svc(s[0], s[1]), g_svcrec(s[3] == 0, s[2] != 0)))
         invalid = [i for i, op in enumerate(b["txs"]) if (op[0] == 2 and len(op) > 10 and op[10] != 0) or (op[0] == 3 and op[2] == 5)]
-        blocks.append("(Build_block %s %s %s)" % (glist(seed), glist(txs), glist(invalid, str)))
+        blocks.append("(Build_block %s %s)" % (glist(txs), glist(invalid, str)))
+        if bi == 0:
+            genesis_seed = seed
     digests = glist(out["digests"][:nblocks + 1], lambda blk: glist(blk, lambda f: glist(relabel(f), str)))
     k = out["k"]
     reps = range(k) if all_replicas else [0]
@@ -531,7 +534,7 @@ def g_case(h, out, flags, cands, all_replicas):
         obs = glist(reps, lambda r: glist(range(nblocks), lambda bi: g_obs(out["obs_all"][bi][r])))
     else:
         obs = glist([0], lambda r: glist(range(nblocks), lambda bi: g_obs(obs0[bi])))
-    return "(Build_case %s %d%%nat [] %s %s %s %s)" % (g_cfg(flags), cands, glist(blocks), digests, restarts, obs), indomain
+    return "(Build_case %s %d%%nat %s %s %s %s %s)" % (g_cfg(flags), cands, glist(genesis_seed), glist(blocks), digests, restarts, obs), indomain
 
 
 def coq_judge(ctx, name, fn, cases):
